@@ -158,6 +158,17 @@ fn tok_label(t: &Tok) -> String {
 /// Char offset whose line/column under pest's own convention (`Position::line_col`: LF and CRLF end a
 /// line, a lone CR is an ordinary column) equals (line, col).
 fn pest_offset(src: &str, line: usize, col: usize) -> Option<usize> {
+    pest_offset_inner(src, line, col).or_else(|| {
+        // a tree in which syntax errors follow the three-terminator rule (notes/fixes/C14-syntax-error-position.patch)
+        let n = src.chars().count();
+        (0..=n).find(|o| {
+            let p = lex::pos_of(src, *o);
+            (p.line as usize, p.col as usize) == (line, col)
+        })
+    })
+}
+
+fn pest_offset_inner(src: &str, line: usize, col: usize) -> Option<usize> {
     let cs: Vec<char> = src.chars().collect();
     let (mut l, mut c) = (1usize, 1usize);
     let mut i = 0;
@@ -203,7 +214,7 @@ fn ref_err(doc: Doc, src: &str) -> Option<rp::ParseError> {
 /// document is grammatical but its tree is not the crate's (another defect overlaps), "none" when the
 /// document cannot be repaired this way; kind = keyword | number | string | mixed | none, by the tokens
 /// to the left of the invented boundaries.
-fn split_diagnosis(doc: Doc, src: &str, crate_tree: &J) -> (String, String) {
+fn split_diagnosis(doc: Doc, src: &str, crate_tree: &J) -> (String, String, Option<String>) {
     let mut cur: Vec<char> = src.chars().collect();
     let mut lefts: Vec<String> = Vec::new();
     let mut first = String::new();
@@ -231,6 +242,11 @@ fn split_diagnosis(doc: Doc, src: &str, crate_tree: &J) -> (String, String) {
             if ok {
                 let prefix: String = next[..k].iter().collect();
                 let left = lex::tokenize(&prefix).ok().and_then(|ts| ts.into_iter().rev().find(|t| t.t != Tok::Eof).map(|t| tok_label(&t.t))).unwrap_or_else(|| "?".into());
+                // the crate's `name` rule is greedy: it never ends a plain name early, only literals (keywords,
+                // numbers, strings) can be followed by an invented boundary
+                if !(KEYWORDS.contains(&left.as_str()) || matches!(left.as_str(), "Int" | "Float" | "String" | "BlockString")) {
+                    continue;
+                }
                 if first.is_empty() {
                     let right = lex::tokenize_spans(&s2).ok().and_then(|ts| ts.into_iter().find(|(t, _)| t.off > k).map(|(t, _)| tok_label(&t.t))).unwrap_or_else(|| "?".into());
                     first = format!("{left}|{right}");
@@ -242,12 +258,12 @@ fn split_diagnosis(doc: Doc, src: &str, crate_tree: &J) -> (String, String) {
             }
         }
         if !progressed {
-            return ("none".into(), "none".into());
+            break;
         }
     }
     let text: String = cur.iter().collect();
-    if lefts.is_empty() || ref_err(doc, &text).is_some() {
-        return ("none".into(), "none".into());
+    if lefts.is_empty() {
+        return ("none".into(), "none".into(), None);
     }
     let kind = if lefts.iter().all(|l| KEYWORDS.contains(&l.as_str())) {
         "keyword"
@@ -258,6 +274,10 @@ fn split_diagnosis(doc: Doc, src: &str, crate_tree: &J) -> (String, String) {
     } else {
         "mixed"
     };
+    if ref_err(doc, &text).is_some() {
+        // the invented boundaries explain only part of it: the caller classifies what is left
+        return (format!("{first}+"), format!("{kind}+residual"), Some(text));
+    }
     let exact = match ref_parse(doc, &text) {
         RefOut::Accept(j) => {
             let mut tol = 0;
@@ -265,7 +285,7 @@ fn split_diagnosis(doc: Doc, src: &str, crate_tree: &J) -> (String, String) {
         }
         _ => false,
     };
-    (if exact { first } else { format!("{first}~") }, kind.to_string())
+    (if exact { first } else { format!("{first}~") }, kind.to_string(), None)
 }
 
 /// Innermost production on the reference's stack that is a definition-level construct.
@@ -485,20 +505,23 @@ fn judge(cx: &Cx, st: &Stats, doc: Doc, src: &str, part: &str, extra: &[(&str, S
             None
         }
         (CrateOut::Accept(cj), RefOut::Syntax) => {
-            let (err, tr) = ref_trace(doc, src);
+            let (split, split_kind, repaired) = split_diagnosis(doc, src, &cj);
+            // two slips in one document (`querya{...on}`): the boundaries the crate invented are taken out first,
+            // the production / reason keys then describe what is left
+            let basis: &str = repaired.as_deref().unwrap_or(src);
+            let (err, tr) = ref_trace(doc, basis);
             let err = err.expect("reference rejected");
             let (reason, found) = match err.msg.split_once(", found ") {
-                Some((a, _)) => (a.to_string(), lex::tokenize(src).ok().and_then(|ts| ts.into_iter().find(|t| t.off == err.off).map(|t| tok_label(&t.t))).unwrap_or_else(|| "?".into())),
+                Some((a, _)) => (a.to_string(), lex::tokenize(basis).ok().and_then(|ts| ts.into_iter().find(|t| t.off == err.off).map(|t| tok_label(&t.t))).unwrap_or_else(|| "?".into())),
                 None => (err.msg.clone(), "lexical".to_string()),
             };
             let n = tr.failed_in.len();
             let production = if n >= 2 { format!("{}>{}", tr.failed_in[n - 2], tr.failed_in[n - 1]) } else { tr.failed_in.last().copied().unwrap_or("Document").to_string() };
-            let (split, split_kind) = split_diagnosis(doc, src, &cj);
             let inside = within(&tr.failed_in);
             report(cx, with_extra(
                 Violation::new(
                     "accepts-invalid",
-                    format!("{} document {src:?} is not in the grammar (reference: {} at {}:{}, in {production}) but the crate accepts it as {cj} [token boundary the crate invents: {split}]", doc.name(), err.msg, err.pos.line, err.pos.col),
+                    format!("{} document {src:?} is not in the grammar (reference{}: {} at {}:{}, in {production}) but the crate accepts it as {cj} [token boundary the crate invents: {split}]", doc.name(), if repaired.is_some() { format!(", after separating the glued tokens into {basis:?}") } else { String::new() }, err.msg, err.pos.line, err.pos.col),
                     case(),
                 )
                 .key("production", production)
